@@ -800,6 +800,29 @@ func RunStore(outDir string, seed int64, tier string) error {
 		cleanup()
 		record(j.cfg, j.ops, outs, j.from, nil)
 	}
+	// nested / interleaved cursors: two positions over one store, compared through the two
+	// single-cursor projections of each history
+	nnest := 25
+	if tier == "thorough" {
+		nnest = 1500
+	}
+	for bi, cfg := range storeBackends {
+		for _, h := range nestedJobs(cfg, nnest, seed+int64(bi)) {
+			st, cleanup, err := cfg.open(root)
+			if err != nil {
+				return fmt.Errorf("opening %s: %w", cfg.name, err)
+			}
+			ok := runNested(cfg.ctx(), st, h)
+			cleanup()
+			if !ok {
+				rep.Fail("nested-cursor-refused", cfg.name+": a Cursor call made while another cursor is open did not run", map[string]interface{}{"backend": cfg.name})
+				continue
+			}
+			opsA, outsA, opsB, outsB := h.projections()
+			record(cfg, opsA, outsA, "nested-outer", nil)
+			record(cfg, opsB, outsB, "nested-inner", nil)
+		}
+	}
 	rwg.Wait()
 	sort.Slice(reopened, func(i, j int) bool {
 		return reopened[i].cfg.name+reopened[i].from < reopened[j].cfg.name+reopened[j].from
@@ -811,7 +834,7 @@ func RunStore(outDir string, seed int64, tier string) error {
 		}
 		record(r.cfg, r.ops, r.outs, r.from, r.fails)
 	}
-	rep.Rule = "one evaluation = one operation sequence on a fresh real back-end (untrimmed bolt, trimmed bolt with and without previous-required context, memdb 10 and 12), result observed after every operation; corpus of known witnesses, all put/del sequences up to a depth over rounds {1,2,4} followed by a full read probe, and random sequences over four round alphabets (gaps, byte-boundary rounds up to 2^64-1, re-puts with new data, deletions, seeks to absent rounds, cursor sessions; mutation inside sessions for memdb), and close/reopen histories on the bolt files (reopened through the daemon's format probe, once while another handle still holds the file lock for 1.5 s); distinct = distinct (back-end, sequence); non-trivial = at least one mutation and one read that returned a beacon"
+	rep.Rule = "one evaluation = one operation sequence on a fresh real back-end (untrimmed bolt, trimmed bolt with and without previous-required context, memdb 10 and 12), result observed after every operation; corpus of known witnesses, all put/del sequences up to a depth over rounds {1,2,4} followed by a full read probe, and random sequences over four round alphabets (gaps, byte-boundary rounds up to 2^64-1, re-puts with new data, deletions, seeks to absent rounds, cursor sessions; mutation inside sessions for memdb), nested and interleaved cursors (a second cursor opened inside the first one's callback, both stepped alternately; each history is compared through its two single-cursor projections), and close/reopen histories on the bolt files (reopened through the daemon's format probe, once while another handle still holds the file lock for 1.5 s); distinct = distinct (back-end, sequence); non-trivial = at least one mutation and one read that returned a beacon"
 	if err := rep.Shard(outDir, "cases_store", []string{"From DV Require Import Model.Backends Corr.StoreCorr."}, "scase", "mismatches", lines, descr, 200); err != nil {
 		return err
 	}
